@@ -10,7 +10,7 @@ import (
 // rateTable is a function, not a package variable: the executor does not run package initialisers.
 func rateTable() []float64 {
 	return []float64{8000, 11025, 16000, 22050, 32000, 44100, 48000, 88200, 96000, 176400, 192000, 352800, 384000,
-		2822400, 5644800, 1, 7, 60, 1000, 1000000, 44100.5, 0.5, 999983, 48000.25, 99999, 31999, 705600, 768000, 3}
+		2822400, 5644800, 1, 7, 60, 1000, 1000000, 44100.5, 0.5, 999983, 48000.25, 99999, 31999, 705600, 768000, 3, 12000, 24000, 64000, 500000, 123457, 2, 1.5, 250000.75}
 }
 
 const day = 86400
